@@ -215,7 +215,7 @@ def sql_ops(prog: Program) -> RuleResult:
 
 
 def sql_varid(prog: Program) -> RuleResult:
-    r = RuleResult("SQL-VARID", "the leaf variable of an attribute chain decides the FROM element or is checked against the selected variable", floor=2)
+    r = RuleResult("SQL-VARID", "the leaf variable of an attribute chain decides the FROM element or is checked against the selected variable", floor=5)
     tr = prog.cls(TR)
     f = prog.method(tr.qual, "translate_attribute", inherited=False)
     seen, _ = self_closure(prog, tr.qual, f, property_reads=False)
@@ -269,6 +269,48 @@ def sql_varid(prog: Program) -> RuleResult:
             "the join target and its ON clause are chosen by mapped class alone: for two variables of the same class the table is joined to itself without an alias "
             "(SQLAlchemy raises InvalidRequestError, not an EQLTranslationError), and for a class and its base the ON clause compares a row with itself (no rows)",
         )
+    # (2) the equality is never lost: a path that reports "handled by a JOIN" (returns True) passes the join call; any other non-None
+    #     result is the equality itself, and the caller hands it on as a condition
+    rets = [n for n in cfg.nodes if isinstance(n.stmt, ast.Return) and n.stmt.value is not None and not (isinstance(n.stmt.value, ast.Constant) and n.stmt.value.value is None)]
+    join_nodes = {cfg.node_of(jc) for jc in joins}
+    eq_names = {t.id for n in cfg.nodes if isinstance(n.stmt, ast.Assign) and isinstance(n.stmt.value, ast.Compare) and len(n.stmt.value.ops) == 1 and isinstance(n.stmt.value.ops[0], ast.Eq)
+                for t in n.stmt.targets if isinstance(t, ast.Name)}
+    for i, rn in enumerate(sorted(rets, key=lambda n: n.lineno)):
+        v = rn.stmt.value
+        if isinstance(v, ast.Constant) and v.value is True:
+            p = cfg.path_avoiding(cfg.entry, rn.id, join_nodes)
+            r.check(p is None, f"{j.short}#handled-means-joined[{i}]", site(j, rn.stmt), src(rn.stmt), "every path that reports the equality as handled emitted a JOIN with it",
+                    f"the path {cfg.describe(p) if p else ''} reports the equality as handled without emitting it: a second equality between two already joined variables is dropped")
+        else:
+            is_eq = (isinstance(v, ast.Compare) and len(v.ops) == 1 and isinstance(v.ops[0], ast.Eq)) or (isinstance(v, ast.Name) and v.id in eq_names)
+            r.check(is_eq, f"{j.short}#condition-returned[{i}]", site(j, rn.stmt), src(rn.stmt), "the equality is handed back as a condition", "a non-join result is not the equality between the two columns")
+    caller = next((m for m in tr.methods.values() if m is not j and any(call_name(c) == j.name for c in calls_in(m.node))), None)
+    if caller is None:
+        raise AnalysisError("SQL-VARID: nothing calls the attribute-equality join method")
+    res_names = {t.id for x in walk_local(caller.node) if isinstance(x, ast.Assign) and isinstance(x.value, ast.Call) and call_name(x.value) == j.name for t in x.targets if isinstance(t, ast.Name)}
+    hands_on = any(isinstance(x, ast.Return) and isinstance(x.value, ast.Name) and x.value.id in res_names for x in walk_local(caller.node))
+    returns_cond = any(not (isinstance(n.stmt.value, ast.Constant) and n.stmt.value.value is True) for n in rets)
+    r.check(hands_on or not returns_cond, f"{caller.short}#join-condition-used", site(caller), "", "a condition handed back by the join method becomes part of the WHERE clause",
+            "the caller discards what the join method hands back: the equality is lost")
+    # (3) a JOIN restricts every row: under a disjunction the equality must be rejected (or kept as a plain condition), never joined
+    orf = prog.method(tr.qual, "translate_or", inherited=False)
+    marks = set()
+    if orf is not None:
+        for x in walk_local(orf.node):
+            tg = x.target if isinstance(x, ast.AugAssign) else (x.targets[0] if isinstance(x, ast.Assign) else None)
+            if tg is not None and is_self_attr(tg):
+                marks.add(tg.attr)
+    for jc in joins:
+        jn = cfg.node_of(jc)
+        guarded = False
+        for t in cfg.nodes:
+            if t.kind == "test" and isinstance(t.stmt, ast.If) and cfg.dominates(t.id, jn) and any(is_self_attr(x) and x.attr in marks for x in ast.walk(t.stmt.test)):
+                raises = [x for b in t.stmt.body for x in ast.walk(b) if isinstance(x, ast.Raise) and x.exc is not None]
+                if any(prog.is_subclass(j.module.resolve(x.exc.func if isinstance(x.exc, ast.Call) else x.exc) or "", err_base) for x in raises) and t.true_succ is not None and not cfg.dominates(t.true_succ, jn):
+                    guarded = True
+        r.check(guarded, f"{j.short}#no-join-under-or", site(j, jc), src(jc)[:100], f"rejected when translate_or is active ({sorted(marks)})",
+                "the equality is turned into an inner JOIN even inside a disjunction: the JOIN restricts every row and the equality disappears from the OR "
+                "(or_(f.parent == p.child, f.child.name == 'H1') returns nothing)")
     return r
 
 
@@ -397,5 +439,44 @@ def sql_fetch(prog: Program) -> RuleResult:
     return r
 
 
+# SQLAlchemy column operators with pattern semantics (LIKE / regular expressions): case-insensitive on SQLite, and "_" / "%" in the
+# operand act as wildcards unless escaped. `x in text` in memory is an exact, case-sensitive substring test.
+PATTERN_OPS = {"contains", "icontains", "like", "ilike", "notlike", "startswith", "endswith", "istartswith", "iendswith", "regexp_match", "match", "op"}
+
+
+def sql_membership(prog: Program) -> RuleResult:
+    r = RuleResult("SQL-MEMBERSHIP", "substring membership is translated with an exact substring operator, never with a LIKE pattern", floor=2)
+    om = prog.cls("eql_interface.OperatorMapper")
+    f = prog.method(om.qual, "map_contains_operator", inherited=False)
+    if f is None:
+        raise AnalysisError("SQL-MEMBERSHIP: OperatorMapper.map_contains_operator vanished")
+    n_expr = 0
+    for st in walk_local(f.node):
+        if not (isinstance(st, (ast.Assign, ast.Return)) and st.value is not None):
+            continue
+        leaves, todo = [], [st.value]
+        while todo:  # the branches of a conditional expression are separate translations
+            x = todo.pop()
+            if isinstance(x, ast.IfExp):
+                todo += [x.orelse, x.body]
+            else:
+                leaves.append(x)
+        for leaf in leaves:
+            calls = [c for c in ast.walk(leaf) if isinstance(c, ast.Call) and isinstance(c.func, ast.Attribute)]
+            if not calls and not isinstance(leaf, ast.Call):
+                continue
+            n_expr += 1
+            pat = [c for c in calls if c.func.attr in PATTERN_OPS and not (isinstance(c.func.value, ast.Name) and c.func.value.id == "func")]
+            autoescaped = [c for c in pat if any(k.arg == "autoescape" and getattr(k.value, "value", None) is True for k in c.keywords)]
+            bad = [c for c in pat if c not in autoescaped]
+            r.check(not bad, f"OperatorMapper.map_contains_operator#expr-{n_expr}", site(f, st), src(leaf)[:100],
+                    "built from in_ / instr / literal: exact membership",
+                    f"{src(bad[0])[:80] if bad else ''} is a LIKE pattern: it ignores case on SQLite and reads '_' and '%' in the searched text as wildcards, so the statement selects "
+                    f"rows for which in-memory `text in value` is false")
+    if n_expr < 3:
+        raise AnalysisError("SQL-MEMBERSHIP: fewer than three membership translations found in map_contains_operator")
+    return r
+
+
 def run(prog: Program, tier: str) -> List[RuleResult]:
-    return [sql_reject(prog), sql_ops(prog), sql_varid(prog), sql_alias(prog), sql_fetch(prog)]
+    return [sql_reject(prog), sql_ops(prog), sql_varid(prog), sql_alias(prog), sql_fetch(prog), sql_membership(prog)]
